@@ -189,6 +189,13 @@ def harnesses(tier):
         addc("n=3,no dedup,confidence+merge chunk", dict(n=3, dedup=False, vary="both"), 0.005)
         addc("n=3,dedup,confidence+merge chunk", dict(n=3, dedup=True, vary="both"), 0.005)
         addc("n=3,dedup,parquet vs text", dict(n=3, dedup=True, vary="confidence", suffix=".parquet"), 0.005)
+    # the column-scan chunk sizes of the PIN reader (CHUNK_SIZE_COLUMNS/ROWS_FOR_DROP_COLUMNS): the harnesses of C10
+    # that make them symbolic are run here too, so that this check covers every streaming constant it names
+    from checks import c10
+    for h in c10.harnesses(tier):
+        if h.name.startswith("nascan[") or h.name.startswith("read_percolator["):
+            h.name = "scan:" + h.name
+            hs.append(h)
     return hs
 
 
@@ -285,4 +292,11 @@ def real_conf_rel(cfg, inp):
     return dict(outputs=None, violation=None)
 
 
-REAL = {"brew_rel": real_brew_rel, "conf_rel": real_conf_rel}
+def _c10_real(name):
+    def f(cfg, inp):
+        from checks import c10
+        return c10.REAL[name](cfg, inp)
+    return f
+
+
+REAL = {"nascan": _c10_real("nascan"), "read": _c10_real("read"), "brew_rel": real_brew_rel, "conf_rel": real_conf_rel}
